@@ -193,6 +193,25 @@ def complex_model(name, params):
         def infl(G, node, status, parameters):
             return list(G.neighbors(node))
         return rate, choice, infl, ['S', 'I', 'R'], {('S', 'I'), ('I', 'R')}
+    if name == 'lazy':
+        # the chooser may answer with the node's current status (a model with 'failed attempts'): a null event - the clock runs, nothing changes.
+        # Deterministic and draw-free, so both return modes see the same run.  (Same model as C15's 'lazy'.)
+        tau, gamma = params
+
+        def rate(G, node, status, parameters):
+            if status[node] == 'I':
+                return gamma
+            return tau * sum(1 for v in G.neighbors(node) if status[v] == 'I')
+
+        def choice(G, node, status, parameters):
+            k = sum(1 for v in G.neighbors(node) if status[v] == 'I')
+            if status[node] == 'I':
+                return 'S' if k % 2 == 0 else 'I'
+            return 'I' if k != 2 else 'S'
+
+        def infl(G, node, status, parameters):
+            return list(G.neighbors(node))
+        return rate, choice, infl, ['S', 'I'], {('S', 'I'), ('I', 'S')}
     raise ValueError(name)
 
 
